@@ -5,6 +5,7 @@ Base class for adapters for Pandas-like APIs
 from abc import ABC
 from typing import Any, Callable, Dict, Iterable, List, Optional
 import datetime
+import os
 import types
 import numbers
 import warnings
@@ -18,6 +19,11 @@ import data_algebra.data_ops_types
 import data_algebra.connected_components
 import data_algebra.cdata
 import data_algebra.expression_walker
+
+# verification hooks: active only under DATA_ALGEBRA_VERIF=1 (see data_algebra/_verif_trace.py)
+_VERIF_TRACE = None
+if os.environ.get("DATA_ALGEBRA_VERIF") == "1":
+    import data_algebra._verif_trace as _VERIF_TRACE
 
 
 # also possible, Dask, Nvidia Rapids, Modin, or Datatable versions
@@ -663,6 +669,8 @@ class PandasModelBase(
         """
         Evaluate an incoming (or value source) node.
         """
+        if _VERIF_TRACE is not None:
+            return _VERIF_TRACE.eval_value_source(self, s, data_map)
         return self._method_dispatch_table[s.node_name](op=s, data_map=data_map)
 
     def _extend_step(self, op, *, data_map):
